@@ -93,6 +93,11 @@ func c05Eval(cs c05Case) *Case {
 	}
 	files := map[string]string{"p.vuego": page, "components/MyComp.vuego": comp}
 	res := renderPage(files, "p.vuego", data, vuego.WithComponents())
+	{
+		// correspondence: the same case without the `type` filter (not among the modelled built-ins)
+		f2 := map[string]string{"p.vuego": page, "components/MyComp.vuego": strings.Replace(comp, `<u>«type:{{ a | type }}»</u>`, "", 1)}
+		pendingPages = append(pendingPages, pageCase("component", f2, map[string]string{"my-comp": "components/MyComp.vuego"}, "p.vuego", data, fmt.Sprintf("tag:%v", cs.tagForm)))
+	}
 	c := &Case{Name: cs.desc, Input: map[string]any{"desc": cs.desc, "files": files}, Impl: res.canon(), Oracle: &Verdict{OK: true}, Key: cs.desc, Tags: []string{fmt.Sprintf("tag:%v", cs.tagForm), fmt.Sprintf("wrapped:%v", cs.wrapped)}}
 	// required: fails iff a listed name is absent from the merged environment the component sees
 	missing := ""
@@ -211,6 +216,7 @@ func c05Cases() []c05Case {
 }
 
 func runC05(r *Run, replay *Case) {
+	defer flushPages(r)
 	cases := c05Cases()
 	if replay != nil {
 		for _, cs := range cases {
